@@ -76,7 +76,8 @@ fn wrap(ctx: &str, inner: &str) -> String {
         "gate-body" => format!("gate gg qa {{ {inner} }}"),
         "def-body" => format!("def ff() {{ {inner} }}"),
         "if-body" => format!("if (true) {{ {inner} }}"),
-        "else-body" => format!("if (true) {{ }} else {{ {inner} }}"),
+        // the then-branch declares the same name with another type: the two branches are two scopes
+        "else-body" => format!("if (true) {{ bool sym_under_test = true; }} else {{ {inner} }}"),
         "while-body" => format!("while (true) {{ {inner} }}"),
         "for-body" => format!("for int i0 in [0:1] {{ {inner} }}"),
         "case-body" => format!("switch (1) {{ case 1 {{ {inner} }} }}"),
